@@ -527,11 +527,147 @@ func init() {
 
 var _ = strings.Contains
 
+// scratchSummary: what fn does to field F of its parameter pi — "reset" (a
+// fresh value: [:0], nil or make, on every path), "accumulate" (only values
+// grown from the field's own previous value), "none" or "unknown".
+func scratchSummary(c *Ctx, fn *ssa.Function, pi int, field string, depth int) string {
+	if fn.Blocks == nil || depth > 2 || pi >= len(fn.Params) {
+		return "unknown"
+	}
+	p := fn.Params[pi]
+	var classify func(v ssa.Value, d int) string
+	classify = func(v ssa.Value, d int) string {
+		if d > 12 {
+			return "unknown"
+		}
+		switch x := v.(type) {
+		case *ssa.Slice:
+			if k, ok := constInt(x.High); ok && k == 0 && x.High != nil {
+				return "fresh"
+			}
+			return classify(x.X, d+1)
+		case *ssa.MakeSlice:
+			return "fresh"
+		case *ssa.Const:
+			return "fresh"
+		case *ssa.Extract:
+			return classify(x.Tuple, d+1)
+		case *ssa.Phi:
+			worst := "fresh"
+			for _, e := range x.Edges {
+				if e == ssa.Value(x) {
+					continue
+				}
+				switch classify(e, d+1) {
+				case "unknown":
+					return "unknown"
+				case "acc":
+					worst = "acc"
+				}
+			}
+			return worst
+		case *ssa.Call:
+			if bi, ok := x.Call.Value.(*ssa.Builtin); ok && bi.Name() == "append" {
+				return classify(x.Call.Args[0], d+1)
+			}
+			worst, n := "fresh", 0
+			for _, a := range x.Call.Args {
+				if isByteSlice(a.Type()) {
+					n++
+					switch classify(a, d+1) {
+					case "unknown":
+						return "unknown"
+					case "acc":
+						worst = "acc"
+					}
+				}
+			}
+			if n == 0 {
+				return "unknown"
+			}
+			return worst
+		case *ssa.UnOp:
+			if x.Op == token.MUL {
+				if fa, ok := x.X.(*ssa.FieldAddr); ok && fa.X == ssa.Value(p) {
+					if _, f := fieldAddrInfo(fa); f != nil && f.Name() == field {
+						return "acc"
+					}
+				}
+			}
+		}
+		return "unknown"
+	}
+	via := map[*ssa.BasicBlock]bool{}
+	nStores, anyAcc := 0, false
+	for _, b := range fn.Blocks {
+		for _, ins := range b.Instrs {
+			switch x := ins.(type) {
+			case *ssa.Store:
+				fa, ok := x.Addr.(*ssa.FieldAddr)
+				if !ok || fa.X != ssa.Value(p) {
+					// whole-struct store through the parameter: *p = T{}
+					if x.Addr == ssa.Value(p) {
+						nStores++
+						via[b] = true
+					}
+					continue
+				}
+				if _, f := fieldAddrInfo(fa); f == nil || f.Name() != field {
+					continue
+				}
+				nStores++
+				switch classify(x.Val, 0) {
+				case "fresh":
+					via[b] = true
+				case "acc":
+					anyAcc = true
+				default:
+					return "unknown"
+				}
+			case ssa.CallInstruction:
+				sc := x.Common().StaticCallee()
+				if sc == nil || !c.inRoot(sc) || sc == fn {
+					continue
+				}
+				for ai, a := range x.Common().Args {
+					if a == ssa.Value(p) {
+						switch scratchSummary(c, sc, ai, field, depth+1) {
+						case "reset":
+							nStores++
+							via[b] = true
+						case "accumulate":
+							nStores++
+							anyAcc = true
+						case "unknown":
+							return "unknown"
+						}
+					}
+				}
+			}
+		}
+	}
+	if nStores == 0 {
+		return "none"
+	}
+	if len(via) > 0 && !anyAcc {
+		all := true
+		for _, b := range fn.Blocks {
+			if _, ok := b.Instrs[len(b.Instrs)-1].(*ssa.Return); ok && !coveredOnAllPaths(fn, via, b) {
+				all = false
+			}
+		}
+		if all {
+			return "reset"
+		}
+	}
+	return "accumulate"
+}
+
 func init() {
 	register(&Rule{
 		Name:  "ITER-SCRATCH",
 		Floor: 2,
-		Doc:   "where a stored-field record is accumulated in scratch that outlives the document loop (a bytes.Buffer for the meta part, a byte slice for the data part) and then handed to chunkedDocumentCoder.Add, on every path through one iteration that reaches the Add the buffer was Reset() and the slice restarted from [:0] (or freshly made) in that same iteration: a document that stores nothing can never be written with the previous document's record",
+		Doc:   "where a stored-field record is accumulated in scratch that outlives the document loop (a bytes.Buffer, a byte slice variable, or byte-slice fields of an encoder object) and then handed to chunkedDocumentCoder.Add, on every path through one iteration that reaches the Add the scratch was restarted in that same iteration (Reset() of the buffer, [:0] / a fresh slice, or a reset method of the encoder object): a document that stores nothing can never be written with the previous document's record. A record that is a window of data produced outside the loop is not scratch",
 		Run: func(c *Ctx, scope string, r *Report) {
 			for _, fn := range c.fnsCalling("(*chunkedDocumentCoder).Add") {
 				for _, add := range callsOf(fn, "(*chunkedDocumentCoder).Add") {
@@ -540,11 +676,6 @@ func init() {
 					if meta == nil || data == nil {
 						meta, data = add.Call.Args[2], add.Call.Args[3]
 					}
-					mc, ok := meta.(*ssa.Call)
-					if !ok || mc.Call.StaticCallee() == nil || funcFullName(mc.Call.StaticCallee()) != "bytes.(*Buffer).Bytes" {
-						continue // the record is a window of existing data, not accumulated scratch
-					}
-					bufPath := accessPath(mc.Call.Args[0])
 					// the innermost loop around the Add
 					var hdr *ssa.BasicBlock
 					for b := add.Block(); b != nil; b = b.Idom() {
@@ -555,8 +686,7 @@ func init() {
 					}
 					key := fnName(fn) + "/record-scratch"
 					if hdr == nil {
-						r.undecided(key, fnName(fn), c.pos(add.Pos()), "the record is accumulated in scratch but the Add is not in a loop")
-						continue
+						continue // a single record written outside any loop
 					}
 					body := loopBody(hdr)
 					paths, complete := iterPaths(hdr, hdr.Succs[0], body, 4000)
@@ -564,7 +694,7 @@ func init() {
 						r.undecided(key, fnName(fn), c.pos(add.Pos()), "too many paths through the document loop")
 						continue
 					}
-					bad := ""
+					bad, und := "", ""
 					np := 0
 					for _, p := range paths {
 						idx := -1
@@ -582,36 +712,49 @@ func init() {
 						for _, b := range pre {
 							inPath[b] = true
 						}
-						// (1) buffer reset in this iteration
-						reset := false
-						for _, b := range pre {
-							for _, ins := range b.Instrs {
-								if ci, ok := ins.(ssa.CallInstruction); ok {
-									if sc := ci.Common().StaticCallee(); sc != nil && funcFullName(sc) == "bytes.(*Buffer).Reset" && accessPath(ci.Common().Args[0]) == bufPath {
-										if b != add.Block() || instrIndex(ins) < instrIndex(add) {
-											reset = true
-										}
+						// scanBack visits the instructions of the path prefix that precede `from`, latest first
+						scanBack := func(from ssa.Instruction, visit func(ins ssa.Instruction) (string, bool)) string {
+							bi := -1
+							for i, b := range pre {
+								if b == from.Block() {
+									bi = i
+								}
+							}
+							if bi < 0 {
+								return "unknown"
+							}
+							for i := bi; i >= 0; i-- {
+								b := pre[i]
+								start := len(b.Instrs) - 1
+								if i == bi {
+									start = instrIndex(from) - 1
+								}
+								for j := start; j >= 0; j-- {
+									if res, done := visit(b.Instrs[j]); done {
+										return res
 									}
 								}
 							}
+							return "carried"
 						}
-						if !reset {
-							bad = "the meta buffer " + bufPath + " is not Reset() on the path " + blockList(pre) + " before the record is added: it still holds the previous document's meta data"
-							break
-						}
-						// (2) the data slice restarts in this iteration
 						var origin func(v ssa.Value, d int) string
 						origin = func(v ssa.Value, d int) string {
 							if d > 24 {
 								return "unknown"
 							}
 							v = resolveOnPath(v, hdr, pre)
+							if ins, ok := v.(ssa.Instruction); ok {
+								if _, isPhi := v.(*ssa.Phi); !body[ins.Block()] && !(isPhi && ins.Block() == hdr) {
+									return "fresh" // produced outside this loop: not accumulated by it
+								}
+							}
 							switch x := v.(type) {
+							case *ssa.Parameter, *ssa.FreeVar, *ssa.Global:
+								return "fresh"
 							case *ssa.Phi:
 								if x.Block() == hdr {
 									return "carried"
 								}
-								// a phi outside the path prefix (inner loop cut): take its edges
 								worst := "fresh"
 								for _, e := range x.Edges {
 									if e == ssa.Value(x) {
@@ -627,47 +770,26 @@ func init() {
 									return "fresh"
 								}
 								return origin(x.X, d+1)
-							case *ssa.MakeSlice:
+							case *ssa.MakeSlice, *ssa.Const:
 								return "fresh"
-							case *ssa.Const:
-								return "fresh"
-							case *ssa.UnOp:
-								// a load of a local cell (a variable captured by a closure lives in
-								// one): the value is what the path last stored into it
-								al, isAlloc := x.X.(*ssa.Alloc)
-								if x.Op != token.MUL || !isAlloc {
-									return "unknown"
-								}
-								bi := -1
-								for i, b := range pre {
-									if b == x.Block() {
-										bi = i
-									}
-								}
-								if bi < 0 {
-									return "unknown"
-								}
-								for i := bi; i >= 0; i-- {
-									b := pre[i]
-									from := len(b.Instrs) - 1
-									if i == bi {
-										from = instrIndex(x) - 1
-									}
-									for j := from; j >= 0; j-- {
-										if st, ok := b.Instrs[j].(*ssa.Store); ok && st.Addr == ssa.Value(al) {
-											return origin(st.Val, d+1)
-										}
-									}
-								}
-								return "carried"
 							case *ssa.Extract:
 								return origin(x.Tuple, d+1)
 							case *ssa.Call:
 								if bi, ok := x.Call.Value.(*ssa.Builtin); ok && bi.Name() == "append" {
 									return origin(x.Call.Args[0], d+1)
 								}
-								worst := "fresh"
-								n := 0
+								if sc := x.Call.StaticCallee(); sc != nil && funcFullName(sc) == "bytes.(*Buffer).Bytes" {
+									bufPath := accessPath(x.Call.Args[0])
+									return scanBack(x, func(ins ssa.Instruction) (string, bool) {
+										if ci, ok := ins.(ssa.CallInstruction); ok {
+											if s2 := ci.Common().StaticCallee(); s2 != nil && funcFullName(s2) == "bytes.(*Buffer).Reset" && accessPath(ci.Common().Args[0]) == bufPath {
+												return "fresh", true
+											}
+										}
+										return "", false
+									})
+								}
+								worst, n := "fresh", 0
 								for _, a := range x.Call.Args {
 									if isByteSlice(a.Type()) {
 										n++
@@ -680,28 +802,79 @@ func init() {
 									return "unknown"
 								}
 								return worst
+							case *ssa.UnOp:
+								if x.Op != token.MUL {
+									return "unknown"
+								}
+								switch a := x.X.(type) {
+								case *ssa.Alloc:
+									// a local cell (a variable captured by a closure lives in one)
+									return scanBack(x, func(ins ssa.Instruction) (string, bool) {
+										if st, ok := ins.(*ssa.Store); ok && st.Addr == ssa.Value(a) {
+											return origin(st.Val, d+1), true
+										}
+										return "", false
+									})
+								case *ssa.FieldAddr:
+									// a byte-slice field of an encoder object: last store on the path,
+									// through the object's helper methods
+									_, f := fieldAddrInfo(a)
+									if f == nil {
+										return "unknown"
+									}
+									objPath := accessPath(a.X)
+									return scanBack(x, func(ins ssa.Instruction) (string, bool) {
+										switch y := ins.(type) {
+										case *ssa.Store:
+											if fa, ok := y.Addr.(*ssa.FieldAddr); ok && accessPath(fa) == accessPath(a) {
+												return origin(y.Val, d+1), true
+											}
+										case ssa.CallInstruction:
+											sc := y.Common().StaticCallee()
+											if sc == nil || !c.inRoot(sc) {
+												return "", false
+											}
+											for ai, arg := range y.Common().Args {
+												if accessPath(arg) == objPath {
+													switch scratchSummary(c, sc, ai, f.Name(), 0) {
+													case "reset":
+														return "fresh", true
+													case "unknown":
+														return "unknown", true
+													}
+												}
+											}
+										}
+										return "", false
+									})
+								}
 							}
 							return "unknown"
 						}
-						switch origin(data, 0) {
-						case "carried":
-							bad = "the data slice handed to Add is carried over from the previous iteration on the path " + blockList(pre) + " without being restarted from [:0]: the previous document's stored values are written again"
-						case "unknown":
-							bad = "cannot tell where the data slice handed to Add comes from on the path " + blockList(pre)
+						for _, arg := range []struct {
+							v    ssa.Value
+							what string
+						}{{meta, "meta"}, {data, "data"}} {
+							switch origin(arg.v, 0) {
+							case "carried":
+								bad = "the " + arg.what + " part handed to Add is carried over from the previous iteration on the path " + blockList(pre) + " without being restarted: the previous document's record is written again"
+							case "unknown":
+								und = "cannot tell where the " + arg.what + " part handed to Add comes from on the path " + blockList(pre)
+							}
 						}
 						if bad != "" {
 							break
 						}
 					}
 					switch {
-					case bad != "" && strings.HasPrefix(bad, "cannot tell"):
-						r.undecided(key, fnName(fn), c.pos(add.Pos()), bad)
 					case bad != "":
 						r.bad(key, fnName(fn), c.pos(add.Pos()), bad)
+					case und != "":
+						r.undecided(key, fnName(fn), c.pos(add.Pos()), und)
 					case np == 0:
 						r.undecided(key, fnName(fn), c.pos(add.Pos()), "no path through the loop reaches the Add")
 					default:
-						r.ok(key, fnName(fn), c.pos(add.Pos()), fmt.Sprintf("%d paths to the Add: meta buffer Reset() and data restarted from [:0] in the same iteration", np))
+						r.ok(key, fnName(fn), c.pos(add.Pos()), fmt.Sprintf("%d paths to the Add: both parts of the record are restarted in the same iteration (or are windows of data produced outside the loop)", np))
 					}
 				}
 			}
